@@ -205,6 +205,43 @@ theorem C14_setup_refused (s' : State) (R : List Prod)
     · exact absurd hf (by simp)
     · exact hno
 
+/-! ## the `-t TAG` forms of the command line (`RemoveCmd.execute`) -/
+
+/-- `eups remove -t TAG product` is `eups remove product <the version carrying TAG>`; without such a version
+nothing happens. -/
+theorem C14_by_tag (tag : Str) :
+    (∃ v, (name, tag, v) ∈ s.tags ∧
+        removeByTag s uses name tag recursive check force dn = removeWith s uses name v recursive check force dn) ∨
+      ((∀ v, (name, tag, v) ∉ s.tags) ∧
+        removeByTag s uses name tag recursive check force dn = (.failed .tagNotFound, s, [])) := by
+  unfold removeByTag
+  cases hf : s.tags.find? (fun t => t.1 == name && t.2.1 == tag) with
+  | none =>
+    right
+    refine ⟨?_, rfl⟩
+    intro v hv
+    have := List.find?_eq_none.mp hf (name, tag, v) hv
+    simp at this
+  | some t =>
+    left
+    have hm := List.mem_of_find?_eq_some hf
+    have hp := List.find?_some hf
+    simp only [Bool.and_eq_true, beq_iff_eq] at hp
+    refine ⟨t.2.2, ?_, rfl⟩
+    have : t = (name, tag, t.2.2) := by
+      obtain ⟨a, b, c⟩ := t
+      simp only at hp
+      rw [hp.1, hp.2]
+    rw [← this]; exact hm
+
+/-- `eups remove -t TAG` takes the tag off every product and touches nothing else. -/
+theorem C14_untag_exact (tag : Str) :
+    (untag s tag).decls = s.decls ∧ (untag s tag).dirs = s.dirs ∧
+      ∀ t, t ∈ (untag s tag).tags ↔ (t ∈ s.tags ∧ t.2.1 ≠ tag) := by
+  refine ⟨rfl, rfl, ?_⟩
+  intro t
+  simp [untag, List.mem_filter]
+
 /-! Non-vacuity: `app 1 → lib 1 ← other 1`.  Removing `app` recursively is refused (lib is in use by `other`),
 succeeds with `--noCheck` taking `lib` along, and a plain removal of `app` leaves everything else alone.
 `cyc`: `x 1 ↔ y 1`, a dependency cycle: the recursive removal ends and takes both (D33 repaired). -/
@@ -214,8 +251,8 @@ def l : Str := [108]
 def o : Str := [111]
 def v1 : Str := [49]
 def ex : State :=
-  { decls := [⟨a, v1, [⟨false, false, l, none, false⟩], false⟩, ⟨l, v1, [], false⟩,
-              ⟨o, v1, [⟨false, false, l, none, false⟩], false⟩]
+  { decls := [⟨a, v1, [⟨false, false, l, none, false, false⟩], false⟩, ⟨l, v1, [], false⟩,
+              ⟨o, v1, [⟨false, false, l, none, false, false⟩], false⟩]
     tags := [(a, currentTag, v1), (l, currentTag, v1), (o, currentTag, v1)]
     dirs := [(a, v1), (l, v1), (o, v1)] }
 
@@ -227,7 +264,7 @@ example : (remove ex a v1 false true false none).2.1.decls.map (·.name) = [l, o
 def x : Str := [120]
 def y : Str := [121]
 def cyc : State :=
-  { decls := [⟨x, v1, [⟨false, false, y, none, false⟩], false⟩, ⟨y, v1, [⟨false, false, x, none, false⟩], false⟩]
+  { decls := [⟨x, v1, [⟨false, false, y, none, false, false⟩], false⟩, ⟨y, v1, [⟨false, false, x, none, false, false⟩], false⟩]
     tags := [(x, currentTag, v1), (y, currentTag, v1)]
     dirs := [(x, v1), (y, v1)] }
 example : (remove cyc x v1 true false false none).2.2 = [⟨x, some v1, true⟩, ⟨y, some v1, true⟩] := by decide
